@@ -5,6 +5,7 @@ import HH.Neon
 import HH.WasmB
 import HH.Spec
 import HH.Dispatch
+import HH.StdTraits
 /-!
 # HH.Machine — handles ↦ hashers, the operations of the public API, `step` and `run`
 
@@ -140,6 +141,12 @@ inductive Op
   | drop (h : Nat)
   | debug (h : Nat)
   | hash (sel : Sel) (force : Bool) (w : Width) (key : V4) (d : List (BitVec 8))
+  /-- a sequence of `Hasher::write` / `io::Write::write` calls made on the caller's behalf by provided
+  trait methods: `value.hash(&mut hasher)` (`write_u8 … write_usize`, `write_str`, length prefixes),
+  `write_vectored` until everything is consumed, `write_fmt` -/
+  | writes (h : Nat) (ws : List (List (BitVec 8)))
+  /-- `HighwayBuildHasher::new(key).hash_one(value)` where `value.hash` makes the `write` calls `ws` -/
+  | hashOne (key : V4) (ws : List (List (BitVec 8)))
 deriving Repr
 
 inductive Out
@@ -233,6 +240,14 @@ def step (env : Env) (w : World) : Op → World × Out
   | .hash sel force wd key d =>
     match construct env sel force false (Hasher.new · key) with
     | some x => (w, .digest ((x.h.append d).finalize wd))
+    | none => (w, .none)
+  | .writes h ws =>
+    match w.get h with
+    | none => (w, .nohandle)
+    | some x => (w.put h { x with h := ws.foldl Hasher.append x.h }, .ok)
+  | .hashOne key ws =>
+    match construct env .auto false false (Hasher.new · key) with
+    | some x => (w, .digest (.d64 (ws.foldl Hasher.append x.h).finalize64))
     | none => (w, .none)
 
 /-- a history of API calls: final world and the outputs in order -/
